@@ -154,18 +154,18 @@ def SafeLib : Obj → List Nat → Bool
   | .null, rest => libEnds rest
   | .bool _, rest => libEnds rest
   | .int i, rest =>
-    inI64 i && libEnds rest && (!(0 ≤ i && i ≤ 9999999) || libIntFollowOk rest)
+    inI64 i && libEnds rest && (!(0 ≤ i && i ≤ 4294967295) || libIntFollowOk rest)
   | .real t, rest =>
     let tok := trimReal t
     IsDecTok tok && libEnds rest &&
       (if Spec.Syntax.isIntTok tok then
         let i := Spec.Syntax.intVal tok
-        inI64 i && (!(0 ≤ i && i ≤ 9999999) || libIntFollowOk rest)
+        inI64 i && (!(0 ≤ i && i ≤ 4294967295) || libIntFollowOk rest)
       else true)
   | .str _, _ => true
   | .hexstr bs, _ => allB (fun b => b < 256) bs
   | .name n, rest => NameAscii n && libEnds rest
-  | .ref n g, rest => n ≤ 9999999 && g ≤ 65535 && libEnds rest
+  | .ref n g, rest => n ≤ 4294967295 && g ≤ 65535 && libEnds rest
   | .arr xs, rest => SafeLibElems true xs (93 :: rest)
   | .dict kvs, rest => SafeLibEntries kvs (10 :: 62 :: 62 :: rest) && libDictFollowOk rest
 def SafeLibElems : Bool → List Obj → List Nat → Bool
@@ -216,7 +216,7 @@ def isIntIn (lo hi : Int) : Obj → Bool
 /-- `i g /R` as three consecutive array elements -/
 def refLikeRun : List Obj → Bool
   | a :: b :: c :: rest =>
-    (isIntIn 0 9999999 a && isIntIn 0 65535 b && (match c with | .name [82] => true | _ => false)) ||
+    (isIntIn 0 4294967295 a && isIntIn 0 65535 b && (match c with | .name [82] => true | _ => false)) ||
       refLikeRun (b :: c :: rest)
   | _ => false
 
@@ -265,10 +265,11 @@ def hasNonFiniteKVs : List (List Nat × Obj) → Bool
 end
 
 mutual
-/-- a reference the library's `u32`/`u16`… look-ahead window cannot reproduce
-    (object number > 9 999 999): `n g R` is then read as three objects -/
+/-- a reference outside the library's look-ahead window (object number > `u32::MAX`; before the
+    repair of C09-F5: > 9 999 999): `n g R` is then read as three objects.  `ObjectId` holds a
+    `u32`, so the writer cannot emit one any more. -/
 def hasFarRef : Obj → Bool
-  | .ref n _ => n > 9999999
+  | .ref n _ => n > 4294967295
   | .arr xs => hasFarRefList xs
   | .dict kvs => hasFarRefKVs kvs
   | _ => false
